@@ -67,6 +67,7 @@ type lifeRun struct {
 func (l *lifeRun) rec(kind string, n int) int {
 	s := simrt.Step()
 	l.hist = append(l.hist, Ev{Seq: s, Kind: kind, N: n})
+	simrt.Publish()
 	return s
 }
 
@@ -94,7 +95,7 @@ func runLife(e *Env, focus string) {
 	switch focus {
 	case "C05":
 		nClosers = e.Intn(4)
-		detach = nClosers > 0 && e.Chance(1, 5)
+		detach = nClosers > 0 && e.Chance(1, 5) && !simrt.RaceBuild // Detach is outside the documented concurrency contract
 		withShutdown = e.Chance(1, 5)
 		if detach {
 			// Detach competes only with the poller, so that "who closed first" is observable
@@ -302,7 +303,8 @@ func runLife(e *Env, focus string) {
 	simrt.GoNamed("peer", false, func() {
 		fd, err := vsys.HConnectUnix(path)
 		if err != nil {
-			panic("harness: connect: " + err.Error())
+			peerDone = true // the listener is already gone (Shutdown came first): nothing to observe
+			return
 		}
 		peer = fd
 		data := streamBytes(lifeStream, 0, total)
